@@ -147,6 +147,7 @@ def run(ctx):
     ctx.guard("C13.R5", "recombination driver", lambda: r5_recombination_driver(ctx))
     ctx.guard("C13.R6", "crossover helpers", lambda: r6_crossover_helpers(ctx))
     ctx.guard("C13.R7", "mutation components", lambda: r7_mutation_components(ctx))
+    ctx.guard("C13.R8", "recombination operators", lambda: r8_recombination_operators(ctx))
     ctx.guard("C13.R9", "documented parameter domains", lambda: r9_parameter_domains(ctx))
 
 
@@ -513,7 +514,7 @@ def explore(run_with_script, limit=20000):
             continue
         out.append((script, res))
         if len(out) > limit:
-            raise RuntimeError("more than %d draw sequences" % limit)
+            raise RuntimeError("more than %d draw sequences: some loop over random draws does not terminate within the bound" % limit)
     return out
 
 
@@ -582,6 +583,14 @@ def draw_oracle(script, rate, extra=None):
                 kk = min(amount, len(vals))
                 return new_vec(interp, take(interp, list(itertools.permutations(vals, kk))))
             return TOP
+        if k == "rand::rng::Rng::gen" and (f.get("gargs") or ["", ""])[-1] == "f64":
+            return take(interp, [0.25, 0.75])
+        if k == "rand::rng::Rng::sample_iter":
+            distr = (f.get("gargs") or ["", "", ""])[-1]
+            dom = [False, True] if "Bernoulli" in distr else [0.0, 0.25, 1.0]
+            return Agg("repeat", None, None, [take(interp, dom)])
+        if k == "rand::distributions::bernoulli::Bernoulli::new":
+            return ok(Sym("bernoulli"))
         if k == "rand_distr::normal::Normal::new":
             return ok(Sym("normal"))
         if k in ("rand::distributions::uniform::Uniform::new", "rand::distributions::uniform::Uniform::new_inclusive"):
@@ -774,3 +783,156 @@ def r9_parameter_domains(ctx):
             bad.append((r, outs))
     ctx.check(not bad, "C13.R9", fn.key, "rate-in-unit-interval", "stored rate %s: value() gives %s" % (bad[0] if bad else ("", "")), loc=fn.loc())
     ctx.count("constructor_argument_tuples", n)
+
+
+# ------------------------------------------------------------------ R8: crossover probability, insert-one/both, DE crossovers
+
+RC = "mahf::components::recombination::common::"
+REC = "mahf::components::recombination::Recombination"
+
+
+def r8_recombination_operators(ctx):
+    """K6 over every draw sequence: recombine() yields no offspring exactly when the probability draw exceeds pc
+    (pc 0 / 0.5 / 1 against draws 0.25 / 0.75), otherwise Single(first child) or Both per insert_both, children of
+    the parents' length holding the two parental genes of each position.  DE crossovers: one pop, one push of the
+    mutated population, base population untouched, every position holds the mutant's or the base's gene, at least
+    one comes from the base; pc = 1 copies the base, pc = 0 exactly one position."""
+    import itertools
+    from absint import Interp, Sym, Agg, TOP, some, NONE, std_oracle, chain
+    from collmodel import coll_oracle, install, Vec
+    F = ctx.facts
+    tg = lambda xs: [getattr(x, "tag", x) for x in xs]
+    total = 0
+    ops = [("NPointCrossover", {"n": (1, 2)}, "sym"), ("UniformCrossover", {}, "sym"), ("ArithmeticCrossover", {}, "float"), ("CycleCrossover", {}, "perm")]
+    for name, params, kind in ops:
+        adt = RC + name
+        fn = F.method(adt, "recombine", REC)
+        bad = []
+        cnt = 0
+        pname = next(iter(params), None)
+        for pv in (params[pname] if pname else (None,)):
+            for pc in (0.0, 0.5, 1.0):
+                for both in (False, True):
+                    fields = {F.field_index(adt, "pc"): pc, F.field_index(adt, "insert_both"): both}
+                    if pname:
+                        fields[F.field_index(adt, pname)] = pv
+                    me = Sym("self", fields)
+                    n = 3
+                    if kind == "sym":
+                        A, B = [Sym("a%d" % i) for i in range(n)], [Sym("b%d" % i) for i in range(n)]
+                    elif kind == "float":
+                        A, B = [-2.0, 0.5, 3.0], [1.0, 0.5, -4.0]
+                    else:
+                        A, B = [0, 1, 2], [1, 2, 0]
+                    inl = lambda k: k.startswith("mahf::components::recombination::") or k.startswith("<mahf::components::recombination::") or k.startswith("mahf::problems::encoding::")
+
+                    def once(script):
+                        it = install(Interp(fn.body, chain(draw_oracle(script, 0.0), coll_oracle, std_oracle), [me, Vec("p1", True), Vec("p2", True), Sym("rng")], facts=F, inline=inl, max_visits=40))
+                        it.init_state = {"heap": {"p1": tuple(A), "p2": tuple(B)}, "next_vec": 0}
+                        return it.run()
+                    for script, paths in explore(once):
+                        for p in paths:
+                            cnt += 1
+                            where = ("%s=%s, " % (pname, pv) if pname else "", pc, both, list(script))
+                            u = next((d for d in p.mstate.get("draws", ()) if isinstance(d, float)), None)
+                            r = p.ret
+                            if p.end != "return" or not isinstance(r, Agg) or not (r.name or "").endswith("OptionalPair"):
+                                bad.append(where + ("ends with %s %s" % (p.end, r),))
+                                continue
+                            if u is None:
+                                bad.append(where + ("never draws the crossover probability",))
+                                continue
+                            want = "None" if u > pc else ("Both" if both else "Single")
+                            if r.variant != want:
+                                bad.append(where + ("yields OptionalPair::%s, expected %s (draw %s against pc %s)" % (r.variant, want, u, pc),))
+                                continue
+                            if want == "None":
+                                continue
+                            h = p.mstate.get("heap", {})
+                            kids = r.fields[0].fields if want == "Both" else [r.fields[0]]
+                            kids = [list(h.get(x.vid, ())) if isinstance(x, Vec) else None for x in kids]
+                            if any(kk is None or len(kk) != n for kk in kids):
+                                bad.append(where + ("children %s do not have the parents' length" % (kids,),))
+                                continue
+                            for i in range(n):
+                                if kind == "float":
+                                    lo, hi = min(A[i], B[i]), max(A[i], B[i])
+                                    okk = all(isinstance(kk[i], float) and lo - 1e-12 <= kk[i] <= hi + 1e-12 for kk in kids) and (len(kids) == 1 or abs(kids[0][i] + kids[1][i] - A[i] - B[i]) < 1e-12)
+                                else:
+                                    pair = {getattr(A[i], "tag", A[i]), getattr(B[i], "tag", B[i])}
+                                    got = [getattr(kk[i], "tag", kk[i]) for kk in kids]
+                                    okk = all(g in pair for g in got) and (len(kids) == 1 or set(got) == pair)
+                                if not okk:
+                                    bad.append(where + ("position %d of the children %s does not conserve the parental genes %s / %s" % (i, [tg(kk) for kk in kids], tg(A), tg(B)),))
+                                    break
+        total += cnt
+        ctx.check(not bad, "C13.R8", fn.key, "probability-and-insert-settings", "%spc %s, insert_both %s, draws %s: recombine %s" % (bad[0] if bad else ("", "", "", "", "")),
+                  detail="%d draw sequences" % cnt, loc=fn.loc())
+        ctx.floor("C13.R8", "%s draw sequences" % name, cnt, 12)
+    # ---- DE crossovers
+    for name in ("DEBinomialCrossover", "DEExponentialCrossover"):
+        adt = "mahf::components::recombination::de::" + name
+        fn = F.method(adt, "execute", "mahf::components::Component")
+        bad = []
+        cnt = 0
+        for pc in (0.0, 0.5, 1.0):
+            for d in range(1, 4):
+                for size in (1, 2):
+                    if d == 3 and size == 2 and ctx.tier != "thorough":
+                        continue
+                    me = Sym("self", {F.field_index(adt, "pc"): pc})
+                    M = [[Sym("m%d_%d" % (j, i)) for i in range(d)] for j in range(size)]
+                    B = [[Sym("b%d_%d" % (j, i)) for i in range(d)] for j in range(size)]
+
+                    def pushf(interp, env, f, args):
+                        interp.mstate["pushed"] = interp.mstate.get("pushed", ()) + (args[1],)
+                        return Agg("tuple", None, None, [])
+
+                    def popf(interp, env, f, args, opt=False):
+                        interp.mstate["pops"] = interp.mstate.get("pops", 0) + 1
+                        return some(Vec("mut")) if opt else Vec("mut")
+                    extra = {"mahf::state::common::Populations::try_pop": lambda i_, e_, f_, a_: popf(i_, e_, f_, a_, True), "mahf::state::common::Populations::pop": popf,
+                             "mahf::state::common::Populations::get_current": some(Vec("base", True)), "mahf::state::common::Populations::current": Vec("base", True),
+                             "mahf::state::common::Populations::push": pushf, "mahf::problems::VectorProblem::dimension": d}
+                    inl = lambda k: k.startswith("mahf::problems::individual::") or k.startswith("<mahf::problems::individual::") or k.startswith("mahf::population::") or "as mahf::population::" in k
+
+                    def once(script):
+                        it = install(Interp(fn.body, chain(draw_oracle(script, 0.0, extra), coll_oracle, std_oracle), [me, Sym("problem"), Sym("state")], facts=F, inline=inl, max_visits=80))
+                        heap = {"mut": tuple(Agg("adt", IND, "Individual", [Vec("m%d" % j), NONE]) for j in range(size)),
+                                "base": tuple(Agg("adt", IND, "Individual", [Vec("b%d" % j), some(Sym("o%d" % j))]) for j in range(size))}
+                        for j in range(size):
+                            heap["m%d" % j] = tuple(M[j])
+                            heap["b%d" % j] = tuple(B[j])
+                        it.init_state = {"heap": heap, "next_vec": 0}
+                        return it.run()
+                    for script, paths in explore(once):
+                        for p in paths:
+                            cnt += 1
+                            where = (pc, d, size, list(script))
+                            h = p.mstate.get("heap", {})
+                            if p.end != "return" or not (isinstance(p.ret, Agg) and p.ret.variant == "Ok"):
+                                bad.append(where + ("ends with %s %s" % (p.end, p.ret),))
+                                continue
+                            pushed = p.mstate.get("pushed", ())
+                            if p.mstate.get("pops", 0) != 1 or len(pushed) != 1 or not (isinstance(pushed[0], Vec) and pushed[0].vid == "mut"):
+                                bad.append(where + ("pops %d and pushes %s instead of returning the mutated population" % (p.mstate.get("pops", 0), list(pushed)),))
+                                continue
+                            if any(tg(h.get("b%d" % j, ())) != tg(B[j]) for j in range(size)) or len(h.get("base", ())) != size or len(h.get("mut", ())) != size:
+                                bad.append(where + ("modifies the base population",))
+                                continue
+                            for j in range(size):
+                                got = tg(h.get("m%d" % j, ()))
+                                from_base = [i for i in range(len(got)) if i < d and got[i] == B[j][i].tag]
+                                if len(got) != d or any(got[i] not in (M[j][i].tag, B[j][i].tag) for i in range(d)):
+                                    bad.append(where + ("trial vector %s is not a position-wise mix of %s and %s" % (got, tg(M[j]), tg(B[j])),))
+                                elif not from_base:
+                                    bad.append(where + ("trial vector %s takes no position from the base" % got,))
+                                elif pc == 1.0 and len(from_base) != d:
+                                    bad.append(where + ("pc = 1 but trial vector %s keeps mutant genes" % got,))
+                                elif pc == 0.0 and len(from_base) != 1:
+                                    bad.append(where + ("pc = 0 but trial vector %s takes %d positions from the base" % (got, len(from_base)),))
+        total += cnt
+        ctx.check(not bad, "C13.R8", fn.key, "position-wise-mix-with-base", "pc %s, dimension %s, %s individuals, draws %s: the component %s" % (bad[0] if bad else ("", "", "", "", "")),
+                  detail="%d draw sequences" % cnt, loc=fn.loc())
+        ctx.floor("C13.R8", "%s draw sequences" % name, cnt, 20)
+    ctx.count("recombination_draw_sequences", total)
